@@ -4,4 +4,5 @@ From Coq Require Import ZArith NArith List String.
 From RC Require Import lib.Pep440 lib.Name model.Merge gen.C03Consts model.SelectC03 gen.C04Consts model.MultiC04.
 Extraction Language OCaml.
 Extraction "../build/ocaml/C04/model.ml" N.succ Z.succ Pos.succ Nat.add
-  multi_get_dist build_stack stack_shape_ids pooled_listing get_candidates pep503.
+  multi_get_dist build_stack stack_shape_ids pooled_listing get_candidates pep503
+  merge_urls effective_index effective_extra config_of_cmdline.
